@@ -495,6 +495,9 @@ func c23Classify(err error) string {
 	var mb *ledgercore.MinBalanceError
 	var rej *ledgercore.ApprovalProgramRejectedError
 	var pan ledgercore.EvalPanicError
+	if os.Getenv("VERIF_C23_DEBUG") != "" {
+		fmt.Fprintln(os.Stderr, "ERR0:", err)
+	}
 	switch {
 	case errors.As(err, &nwf):
 		return "malformed"
